@@ -18,7 +18,7 @@ func init() {
 		ID:    "prec/ladder",
 		Text:  "walking the parser's expression ladder from loosest to tightest binding, the printer's precedence numbers of the operators and node kinds produced at each rung are all equal within a rung and strictly increase from rung to rung, and every operator token a rung can put into a Binary/LogicalExpressionNode has a printer precedence",
 		Floor: 14,
-		Run:   runPrecLadder,
+		Run:   func(c *Ctx) { precLadder(c, false) },
 	})
 }
 
@@ -79,7 +79,7 @@ func (c *Ctx) tokenPredicate(fn *types.Func, depth int) []string {
 	return out
 }
 
-func runPrecLadder(c *Ctx) {
+func precLadder(c *Ctx, assocMode bool) {
 	pp := c.Pkg("parser")
 	info := pp.TypesInfo
 	methods := map[string]*FuncRef{}
@@ -248,6 +248,10 @@ func runPrecLadder(c *Ctx) {
 	})
 	if len(prec) < 20 {
 		c.Stale("parser/ast.ExpressionPrecedence: type switch with precedence constants")
+	}
+	if assocMode {
+		precAssoc(c, chain, methods, itemsOf)
+		return
 	}
 	c.Stats["ladder_rungs"] = len(chain)
 	c.Stats["printer_precedence_entries"] = len(prec)
